@@ -187,8 +187,9 @@ def gstate():
     return hashlib.sha256(full_state_key()).hexdigest()
 
 
-def run_model_fixture(fx, seed, prior, fault_before=False):
-    """-> dict(out hash, state_restored, error)"""
+def run_model_fixture(fx, seed, prior, fault_before=False, warmup_seed=None):
+    """-> dict(out hash, state_restored, error); with warmup_seed the same detector object first serves a call with
+    that other seed and is then emptied and re-prepared (state a model keeps on the detector must not matter)"""
     import numpy as np
     import pyx
     from pyxel.evaluator import evaluate_reference
@@ -202,6 +203,13 @@ def run_model_fixture(fx, seed, prior, fault_before=False):
     det.time, det.time_step, det.pipeline_count = 1.0, 1.0, 0
     prep(det)
     func = evaluate_reference(dotted)
+    if warmup_seed is not None:
+        try:
+            func(det, seed=warmup_seed, **kwargs)
+        except Exception:  # noqa: BLE001
+            pass
+        det.empty()
+        prep(det)
     prime(prior)
     if fault_before:
         np.random.random(17)
@@ -256,7 +264,7 @@ def run_mode_case(case, prior):
         kind = case["mode"]
         prime(prior)
         before = gstate()
-        err, hsh = None, None
+        err, hsh, hsh2 = None, None, None
         try:
             if kind == "exposure":
                 mode = pyx.make_exposure(times=case["times"], non_destructive=case["nd"], pipeline_seed=case["pseed"])
@@ -289,9 +297,17 @@ def run_mode_case(case, prior):
             else:
                 raise ValueError(kind)
             hsh = tree_hash(res)
+            if case.get("reuse") and kind == "exposure":
+                # the SAME detector / pipeline / mode objects serve a second run ("whatever ran earlier in the process")
+                restored_first = gstate() == before
+                np.random.random(3)  # unrelated work in between (moves the caller's generator on purpose)
+                before = gstate()
+                hsh2 = tree_hash(pyx.run(mode, det, pipe))
+                if not restored_first:
+                    before = None  # report the first run's leak
         except Exception as e:  # noqa: BLE001
             err = f"{type(e).__name__}: {str(e)[:200]}"
-        return {"hash": hsh, "restored": gstate() == before, "error": err}
+        return {"hash": hsh, "hash_again": hsh2, "restored": gstate() == before, "error": err}
     finally:
         shutil.rmtree(td, ignore_errors=True)
 
@@ -305,6 +321,8 @@ def gen_mode_case(rng, tier):
         c["dask"] = rng.random() < 0.6
         c["scheduler"] = rng.choice(["threads", "threads", "synchronous"])
         c["workers"] = rng.choice([1, 2, 4, 8])
+    if kind == "exposure":
+        c["reuse"] = rng.random() < 0.6
     if kind == "calibration":
         c["gseed"] = rng.choice([1, 2, 3])
         c["islands"] = rng.choice([1, 2])
@@ -380,6 +398,15 @@ def body(ck: common.Check):
                 ck.violation("C04:seeded-draws-depend-on-prior-state", "draws inside a seeded region are not the seed's stream",
                              {"case": {"stream": "discipline", "prog": p, "prior": prior}})
         model_ok = (impl["g"] == ans["g"] and impl["failed"] == ans["failed"] and match_out([tuple(x) for x in ans["out"]], impl))
+        if ans["guarded"] and impl["failed"] == ans["failed"] and not match_out([tuple(x) for x in ans["out"]], impl):
+            # every seeded region must put the generator back in the state it had when the region was entered — also an
+            # INNER region (model seed inside a pipeline seed): then each draw is the k-th value of the stream of the
+            # innermost enclosing seed counted as the model counts it; a mismatch means some region did not restore
+            want = [tuple(x) for x in ans["out"]]
+            got = [impl["lookup"].get(v, [("?", -1)])[0] for v in impl["out_vals"]]
+            ck.violation("C04:nested-seeded-region-not-restored",
+                         f"draws of a fully seeded program are {got} but restoring at the exit of every seeded region gives {want}",
+                         {"case": {"stream": "discipline", "prog": p, "prior": prior}, "expected": want, "got": got})
         if not model_ok:
             ck.disagreement("discipline", {"prog": p, "prior": prior}, {"g": impl["g"], "failed": impl["failed"], "n_out": len(impl["out_vals"])}, ans)
 
@@ -403,6 +430,14 @@ def body(ck: common.Check):
                 ck.violation(f"C04:model-not-reproducible:{label.split('/')[0]}", f"{label}: same seed, same input, different output from different prior generator states", {"case": case})
             if not (a["restored"] and b["restored"]):
                 ck.violation(f"C04:model-leaks-seed:{label.split('/')[0]}", f"{label}: process-wide generator changed by a seeded model call", {"case": case})
+            # history: the same detector object used before with another seed, emptied, then called with `seed`:
+            # "a stochastic model given its own seed argument returns the same output for the same input every time"
+            h = run_model_fixture(fx, seed, prior=1, warmup_seed=seed + 7)
+            if h["error"] is None and h["out"] != a["out"]:
+                ck.violation(f"C04:model-output-depends-on-earlier-calls:{label.split('/')[0]}",
+                             f"{label}: same seed and same input, but the output differs when the detector object was used for an earlier call with another seed",
+                             {"case": {**case, "warmup_seed": seed + 7}})
+            ck.count("models:history:" + label)
             # non-vacuity: a different seed gives a different output (the model is really stochastic)
             c = run_model_fixture(fx, seed + 1, prior=1)
             if c["out"] == a["out"]:
@@ -423,6 +458,9 @@ def body(ck: common.Check):
         if a["hash"] != b["hash"]:
             ck.violation(f"C04:mode-not-reproducible:{case['mode']}" + (":dask" if case.get("dask") else ""),
                          "seeded run repeated from a different prior generator state gives different results", {"case": {"stream": "modes", **case}})
+        if a.get("hash_again") is not None and a["hash_again"] != a["hash"]:
+            ck.violation("C04:mode-not-reproducible:exposure:same-objects-second-run",
+                         "a seeded exposure repeated on the same detector / pipeline objects gives different results", {"case": {"stream": "modes", **case}})
         if not (a["restored"] and b["restored"]):
             ck.violation(f"C04:mode-leaks-seed:{case['mode']}" + (":dask" if case.get("dask") else ""),
                          "process-wide generator not restored after a seeded run", {"case": {"stream": "modes", **case}})
